@@ -461,6 +461,16 @@ func (c *FnCtx) callFunc(env *Env, fn *types.Func, recv *Val, args []Val, x *ast
 	key := FuncKey(fn)
 	sig := fn.Type().(*types.Signature)
 	ct := c.E.Contracts[key]
+	if tps := sig.TypeParams(); tps != nil && tps.Len() > 0 && len(targs) == tps.Len() && c.E.ByObj[fn.Origin()] == nil {
+		// external generic function (not inlined): resolve its type parameters while its
+		// contract / opaque results are evaluated
+		fr := &inlineFrame{fn: c.frame().fn, pkg: c.frame().pkg, tsubst: map[*types.TypeParam]types.Type{}, results: c.frame().results}
+		for i := 0; i < tps.Len(); i++ {
+			fr.tsubst[tps.At(i)] = targs[i]
+		}
+		c.frames = append(c.frames, fr)
+		defer func() { c.frames = c.frames[:len(c.frames)-1] }()
+	}
 	if key == c.Fn.Key && c.inSpec == 0 {
 		// direct recursion: partial correctness is not enough for "never crashes" (unbounded
 		// recursion is a fatal stack overflow in Go); a measure must decrease
@@ -484,6 +494,14 @@ func (c *FnCtx) callFunc(env *Env, fn *types.Func, recv *Val, args []Val, x *ast
 	}
 	if h := c.builtinLib(env, key, fn, recv, args, x); h != nil {
 		return *h
+	}
+	if sig.Params().Len() == 0 && sig.Recv() != nil {
+		switch fn.Name() {
+		case "Inspect", "Error", "String", "Class", "DirectClass", "SingletonClass":
+			// rendering / class lookup: assumed to have no effect on tracked state (listed in the evidence)
+			c.Opaque[key+" (assumed pure)"] = true
+			return c.opaqueResults(env, key, sig)
+		}
 	}
 	fi := c.E.ByObj[fn.Origin()]
 	if fi != nil && fi.Decl != nil && fi.Decl.Body != nil && c.canInline(fi) {
@@ -525,6 +543,7 @@ func (c *FnCtx) inlineCall(env *Env, fn *types.Func, recv *Val, args []Val, x *a
 		c.unsup(x, "cannot inline %s (no body)", FuncKey(fn))
 	}
 	c.Inlined[fi.Key] = true
+	c.scanBoxed(fi.Pkg.TypesInfo, fi.Decl.Body)
 	st := env.st
 	sig := fi.Sig
 	fr := &inlineFrame{fn: fi, pkg: fi.Pkg, tsubst: map[*types.TypeParam]types.Type{}}
@@ -570,7 +589,7 @@ func (c *FnCtx) inlineCall(env *Env, fn *types.Func, recv *Val, args []Val, x *a
 		for _, nm := range fld.Names {
 			if k < len(args) {
 				if obj := fi.Pkg.TypesInfo.Defs[nm]; obj != nil {
-					st.vars[obj] = Val{T: args[k].T, Typ: obj.Type()}
+					c.declareVar(st, obj, Val{T: args[k].T, Typ: obj.Type()})
 				}
 			}
 			k++
@@ -897,6 +916,13 @@ func (c *FnCtx) dynamicCall(env *Env, m *types.Func, recv Val, args []Val, x *as
 	if ct := c.E.Contracts[key]; ct != nil {
 		c.UsedContracts[key] = true
 		return c.applyContract(env, m, ct, &recv, args, x)
+	}
+	if sig.Params().Len() == 0 {
+		switch m.Name() {
+		case "Inspect", "Error", "String", "Class", "DirectClass", "SingletonClass":
+			c.Opaque[key+" (assumed pure)"] = true
+			return c.opaqueResults(env, key, sig)
+		}
 	}
 	return c.opaqueCallFn(env, m, sig, &recv, args, x, false)
 }
